@@ -2,8 +2,8 @@
 int e_en[32]; size_t e_n; double e_cf[4]; int e_tsf;
 int g_throw, g_debug, g_vec_alloc; unsigned g_errors, g_error_bits; size_t g_alloc_bytes;
 long long g_step_rel, g_step_abs; int g_sim_continuing, g_sim_running;
-int g_nmul; double g_mul_a[NMUL], g_mul_b[NMUL], g_mul_r[NMUL];
-int g_ncalls_fb, g_ncalls_fba, g_seen_fb[3], g_seen_fba[3]; double g_val_fb[3], g_val_fba[3], g_sf; int g_sf_ok;
+COLVAR_GHOST_DEFS
+double g_sf; int g_sf_ok;
 size_t nondet_size_t(void); int nondet_int(void); double nondet_double(void); long long nondet_ll(void);
 double k_floor(double x) { return x; } double k_sqrt(double x) { return x; }
 
